@@ -208,7 +208,7 @@ fn gen_one(rng: &mut Rng, env: &Env, ty: &Ty) -> Val {
 }
 
 fn vcfg(rng: &mut Rng) -> ValCfg {
-	ValCfg { max_len: 1 + rng.usize(3), max_depth: 3, budget: 6 + rng.below(14) as i32 }
+	ValCfg { max_len: 1 + rng.usize(3), max_depth: 3, budget: 6 + rng.below(14) as i32, str_boost: 0 }
 }
 
 fn encode(schema: &Schema, env: &Env, ty: &Ty, v: &Val, pres: PresCfg) -> Result<Vec<u8>, String> {
